@@ -401,7 +401,10 @@ Definition prog_ok (x : option (list Qc)) (y : list Qc) (e : option exn) (steps 
                 else:
                     ncalls = len(rec.calls)
                     try:
-                        self.apply(w, o, rec)
+                        with warnings.catch_warnings(record=True) as wl:
+                            warnings.simplefilter("always")
+                            self.apply(w, o, rec)
+                        st["warned"] = [str(x.message)[:60] for x in wl][:3]
                     except Exception as e:
                         st["exc"] = exn_name(e)
                         st["exc_msg"] = "%s: %s" % (type(e).__name__, str(e)[:120])
@@ -685,6 +688,8 @@ Definition prog_ok (x : option (list Qc)) (y : list Qc) (e : option exn) (steps 
         elif name == "smooth":
             if S[0] != B[0] or len(S[1]) != len(B[1]):
                 fail("C16", "smooth-shape", "step %d: smoothing changed x or the length" % i)
+            elif st.get("warned"):
+                pass      # FITPACK reported non-convergence: discarded, not judged
             else:
                 y = np.array(B[1])
                 s = op["s"] if op["s"] is not None else len(y) * float(np.var(y))
